@@ -203,3 +203,24 @@ Theorem C04_fork_window_legacy_refuted :
   forall fuel, is_stopped (stop_loop false fuel (fun _ => true) true (rs0 fw_msgs)) = false.
 Proof. exact fork_window_legacy_spins. Qed.
 Print Assumptions C04_fork_window_legacy_refuted.
+
+(* EVENT records with payload (record_event; read triggers): the trace with its events - the "read" event right after
+   the function's ENTRY, the "diff" event right before its EXIT - killed at every instant (every single store of
+   record_event included: header words, payload copy, the ONE size update), under every interleaving with the recorder,
+   leaves whole records that form a prefix of what the thread executed; complete after the crash handler *)
+Theorem C04_killed_trace_with_events_is_prefix : forall setup cap ops evs sched,
+  wf_ops [] ops = true ->
+  let recs := add_events evs (concat (snd (ops_run [] ops))) in
+  let s := run true cap sched (start setup recs) in
+  exists k, match_recs (firstn k (add_events evs (eager [] ops))) (file (finish s)) = true.
+Proof. exact killed_trace_with_events_is_prefix. Qed.
+Print Assumptions C04_killed_trace_with_events_is_prefix.
+
+Theorem C04_crashed_trace_with_events_is_complete : forall setup cap ops evs sched,
+  wf_ops [] ops = true ->
+  let recs := add_events evs (concat (snd (ops_run [] ops)) ++ segv_flush (fst (ops_run [] ops))) in
+  let s := run true cap sched (start setup recs) in
+  pc s = PIdle -> todo s = [] ->
+  match_recs (add_events evs (eager [] ops)) (file (finish s)) = true.
+Proof. exact crashed_trace_with_events_is_complete. Qed.
+Print Assumptions C04_crashed_trace_with_events_is_complete.
